@@ -313,7 +313,7 @@ def check_duplicate_symbols(ctx, F):
     for b in F.bodies:
         if b.promoted is not None or is_test(b) or b.dk not in ('Fn', 'AssocFn', 'Closure') or 'stream::model' not in b.defpath:
             continue
-        if not any(((callee(t) or {}).get('def') or '').endswith(('HashMap<K, V, S>::insert', 'HashMap<K, V, S, A>::insert', '::entry')) for _, t in b.calls()):
+        if not any(((callee(t) or {}).get('def') or '').endswith(('::entry',)) or ('HashMap' in ((callee(t) or {}).get('def') or '') and ((callee(t) or {}).get('def') or '').endswith('::insert')) for _, t in b.calls()):
             continue
         ev, paths = rules.evaluate(b)
         if not paths:
@@ -626,6 +626,53 @@ def _check_free_weight_positive(ctx, F, b, role_name):
         ctx.unresolved('R6', role, b.defpath, bad[1], key=key)
     else:
         ctx.ok('R6', role, b.defpath, 'every accepting path entails len < wrapping_pow2(PRECISION)', key=key)
+
+
+def check_stored_budget_not_wrapped(ctx, F):
+    """A probability budget that a constructor stores in the model (the free weight of a quantizer) is not the result of a
+    wrap-around: when it is computed with `wrapping_sub`, the path has decided `subtrahend <= minuend` on those very terms (a
+    check on differently computed - e.g. widened - copies does not bound the narrowed value that is subtracted), or the minuend
+    is `wrapping_pow2(..)`, the two's-complement spelling of 2^PRECISION at full width, whose callers are covered by the
+    free-weight rules.  `checked_sub` and a plain `-` behind a guard are not wrapping subtractions and need nothing."""
+    adts = model_adts(F)
+    n = 0
+    for b in F.bodies:
+        if b.promoted is not None or b.derived or is_test(b) or b.dk not in ('Fn', 'AssocFn'):
+            continue
+        if not any(s['k'] == 'assign' and s['rv']['k'] == 'agg' and s['rv'].get('adt') in adts for bl in b.blocks if not bl['cleanup'] for s in bl['stmts']):
+            continue
+        try:
+            ev, paths = rules.evaluate(b)
+        except sym.TooManyPaths:
+            continue
+        sites = {}
+        for r in paths or []:
+            for e in r.events:
+                if e['kind'] != 'literal' or e['adt'] not in adts:
+                    continue
+                for fname, val in zip(e['fnames'], e['vals']):
+                    core = effects.strip_uid(val)
+                    while isinstance(core, tuple) and core and ((core[0] == 'call' and str(core[1]).endswith(('Into::into', 'From::from', 'AsPrimitive::as_')) and core[2]) or core[0] == 'cast'):
+                        core = core[2][0] if core[0] == 'call' else core[2]
+                    if not (isinstance(core, tuple) and core and core[0] == 'bin' and core[1] == 'Sub.w'):
+                        continue
+                    A, B = core[2], core[3]
+                    if isinstance(A, tuple) and A and A[0] == 'call' and str(A[1]).endswith('wrapping_pow2'):
+                        continue
+                    d = rules.path_dbm(r, upto=e['npreds'])
+                    ok = d.entails_le(B, A)
+                    k = fname
+                    sites[k] = sites.get(k, True) and ok
+        for fname, ok in sorted(sites.items()):
+            n += 1
+            key = 'R11/stored-budget-not-wrapped/%s/%s' % (b.defpath, fname)
+            role = 'a stored probability budget computed with wrapping_sub is guarded on the terms that are subtracted'
+            ctx.touch(b)
+            if ok:
+                ctx.ok('R11', role, b.defpath, 'field `%s`: every path to the literal entails subtrahend <= minuend' % fname, key=key)
+            else:
+                ctx.bad('R11', role, b.defpath, 'field `%s` is `minuend.wrapping_sub(subtrahend)` and no decision on the path bounds that subtrahend by that minuend (a check on a widened copy of the operands does not bound the narrowed, possibly sign-extended value): an oversized subtrahend wraps to a huge budget and the model hands out intervals beyond 1 << PRECISION' % fname, key=key, loc=rules.loc(b))
+    ctx.extra['stored_wrapping_budgets'] = n
 
 
 def check_sibling_agreement(ctx, F):
@@ -1084,6 +1131,7 @@ def run(ctx):
     check_constructor_narrowing(ctx, F)
     check_inferred_probability(ctx, F)
     check_zero_entry_counted(ctx, F)
+    check_stored_budget_not_wrapped(ctx, F)
     check_scaled_cumulative_clamped(ctx, F)
     check_duplicate_symbols(ctx, F)
     check_nondegenerate_support(ctx, F)
